@@ -280,6 +280,8 @@ var pipeShapes = []pshape{
 	18: {cs: []xclause{clSAO}, okinds: []int{0}, sel: []proj{pS, pO}, order: []ordKey{{"o", false}}, having: "not ?s = /u<b>", havingRef: func(r rrow) bool { return r["s"].b != 'b' }, limit: 1, prop: "C13"},
 	28: {cs: []xclause{clSIDO}, okinds: []int{0}, sel: []proj{pS, {binding: "i"}, pO}, having: "not ?i < \"b\"^^type:text", havingRef: func(r rrow) bool { return !(r["i"].b < 'b') }, limit: -1, prop: "C13"},
 	29: {cs: []xclause{clSAO}, okinds: []int{2}, sel: []proj{pS, pO}, having: "(?s = /u<a>) or not ?o > \"0\"^^type:int64", havingRef: func(r rrow) bool { return verif.Or(r["s"].b == 'a', !(r["o"].i > 0)) }, limit: -1, prop: "C13"},
+	38: {cs: []xclause{clSAO}, okinds: []int{0}, sel: []proj{pS, pO}, having: "not not ?s = /u<a>", havingRef: func(r rrow) bool { return r["s"].b == 'a' }, limit: -1, prop: "C13"},
+	39: {cs: []xclause{clSAO}, okinds: []int{0}, sel: []proj{pS, pO}, having: "(?o = /u<b>) or not (not ?s = /u<a>)", havingRef: func(r rrow) bool { return verif.Or(r["o"].b == 'b', r["s"].b == 'a') }, limit: -1, prop: "C13"},
 	// ---- C11: GROUP BY
 	19: {cs: []xclause{clSAO}, okinds: []int{0}, sel: []proj{pS, {binding: "o", op: "count", alias: "n"}}, groupBy: []string{"s"}, limit: -1, prop: "C11"},
 	20: {cs: []xclause{clSAO}, okinds: []int{0, 1}, sel: []proj{pS, {binding: "o", op: "count", distinct: true, alias: "n"}}, groupBy: []string{"s"}, limit: -1, prop: "C11"},
@@ -288,6 +290,11 @@ var pipeShapes = []pshape{
 	23: {cs: []xclause{clSAO, clOAZ}, okinds: []int{0}, sel: []proj{pS, {binding: "z", op: "count", alias: "n"}, {binding: "o", op: "count", distinct: true, alias: "m"}}, groupBy: []string{"s"}, limit: -1, prop: "C11"},
 	24: {cs: []xclause{xq(qclause{s: bS, p: bP, o: bO})}, okinds: []int{0}, sel: []proj{pS, {binding: "p"}, {binding: "o", op: "count", alias: "n"}}, groupBy: []string{"s", "p"}, limit: -1, prop: "C11"},
 	30: {cs: []xclause{clSAOT}, okinds: []int{0}, temporal: true, aset: []int{0, 2, 3}, sel: []proj{{binding: "t"}, {binding: "s", op: "count", alias: "n"}}, groupBy: []string{"t"}, limit: -1, prop: "C11x"},
+	40: {cs: []xclause{xq(qclause{s: bS, p: bP, o: bO})}, okinds: []int{0}, sel: []proj{{binding: "s", op: "count", alias: "n"}, pS, {binding: "p"}}, groupBy: []string{"s", "p"}, limit: -1, prop: "C11"},
+	41: {cs: []xclause{clSAO}, okinds: []int{2, 5}, sel: []proj{pS, {binding: "o", op: "count", distinct: true, alias: "n"}}, groupBy: []string{"s"}, limit: -1, prop: "C11"},
+	// ---- C12: ORDER BY the only GROUP BY key, descending
+	42: {cs: []xclause{clSAO}, okinds: []int{0}, sel: []proj{pS, {binding: "o", op: "count", alias: "n"}}, groupBy: []string{"s"}, order: []ordKey{{"s", true}}, limit: -1, prop: "C12"},
+	43: {cs: []xclause{clSAO}, okinds: []int{0}, sel: []proj{pS, {binding: "o", op: "count", alias: "n"}}, groupBy: []string{"s"}, order: []ordKey{{"s", true}}, limit: 1, prop: "C12"},
 	// ---- the single open clause ?s ?p ?o (the only shape whose LIMIT is pushed into the driver lookup)
 	33: {cs: []xclause{xq(qclause{s: bS, p: bP, o: bO})}, okinds: []int{0}, sel: []proj{pS, {binding: "p"}, pO}, having: "?s = /u<b>", havingRef: func(r rrow) bool { return r["s"].b == 'b' }, limit: 1, prop: "C13"},
 	34: {cs: []xclause{xq(qclause{s: bS, p: bP, o: bO})}, okinds: []int{0}, sel: []proj{pS, {binding: "o", op: "count", alias: "n"}}, groupBy: []string{"s"}, limit: 1, prop: "C11"},
